@@ -1242,8 +1242,6 @@ class Color(object):
         if v == "transparent":
             return Color.rgb_to_int(0, 0, 0, 0.0)
         if v == "aliceblue":
-            return Color.rgb_to_int(250, 248, 255)
-        if v == "aliceblue":
             return Color.rgb_to_int(240, 248, 255)
         if v == "antiquewhite":
             return Color.rgb_to_int(250, 235, 215)
